@@ -588,6 +588,9 @@ func (pc *PartitionContext) AddNode(node *objects.Node) error {
 	if pc.isDraining() || pc.isStopped() {
 		return fmt.Errorf("partition %s is stopped cannot add a new node %s", pc.Name, node.NodeID)
 	}
+	if node.NodeID == "" {
+		return fmt.Errorf("cannot add a node without a node ID to partition %s", pc.Name)
+	}
 	if err := pc.addNodeToList(node); err != nil {
 		return err
 	}
